@@ -69,6 +69,22 @@ theorem c11_rt (enable : Bool) (warm : Nat) (calls : List (UInt16 × Option Byte
     C11.rt enable warm calls (C11.obsRt enable warm calls) = true :=
   Proofs.VP8.rt_obsRt enable warm calls
 
+/-- `c11_rt` for a payloader whose public `EnablePictureID` field was at the other value for the first
+    `flipAt` of its `warm` earlier frames and was then set by hand: the running id is the number of
+    frames sent, in whichever mode. -/
+theorem c11_rt_flip (enable : Bool) (warm flipAt : Nat) (h : flipAt ≤ warm)
+    (calls : List (UInt16 × Option Bytes)) :
+    C11.rt enable warm calls (C11.obsRtFlip enable warm flipAt calls) = true :=
+  Proofs.VP8.rt_obsRtFlip enable warm flipAt h calls
+
+/-- non-vacuity: three frames sent with the option off, the field then set, two more frames: the next
+    5-byte frame at MTU 5 carries picture id 5 -/
+example :
+    (3 : Nat) ≤ 5 ∧
+    ((C11.obsRtFlip true 5 3 [(5, some [1, 2, 3, 4, 5])]).map (·.map (·.bytes))) =
+      [[[0x90, 0x80, 0x05, 1, 2], [0x80, 0x80, 0x05, 3, 4], [0x80, 0x80, 0x05, 5]]] := by
+  decide
+
 /-- spelled out for one frame sent by a payloader that has packetized `k` frames before
     (`payState enable k` = picture id `k mod 2^15`): the frame is cut into chunks `c :: cs` that
     are non-empty, at most `mtu − hdr` long and concatenate to the frame; every packet is the
